@@ -4,6 +4,7 @@ matter for C05: comments `(* … *)` nest, and inside a comment a `"` starts a s
 `*)` does not end the comment; strings are `"…"` with `""` as the only escape.
 Total, structurally recursive on a fuel equal to the input length.  Core Lean only.
 -/
+import GooseVerif.GL.Syntax
 namespace GooseVerif.GL
 
 inductive Tok where
@@ -83,7 +84,7 @@ def lexAux : Nat → List Char → List Tok → Except LexError (List Tok)
       | _ => lexAux fuel cs (.sym "(" :: acc)
     else if c == '"' then
       match readString (cs.length + 1) [] cs with
-      | some (s, rest) => lexAux fuel rest (.str s :: acc)
+      | some (s, rest) => lexAux fuel rest (.str (bytesView s) :: acc)
       | none => .error .unterminatedString
     else if c == 'λ' then
       match cs with
